@@ -171,6 +171,13 @@ ALPHABET = [chr(c) for c in range(128)] + ["", "\x80", "Å", "İ", "K", "�", "
 SUFFIXES = ["", ">", " x>", "\"'>", "-->", "a=b>c</title></script>", "></script>x--></script>y"]
 
 
+SEQ_SYMBOLS = ["<", ">", "/", "!", "-", "?", "a", "A", " ", "=", "\"", "'", "&", ";", "#", "x", "0", "]", "[", "\x00", "\n", "`",
+               "<!DOCTYPE", "PUBLIC", "SYSTEM", "<!--", "<![CDATA[", "]]>", "</script", "<script", "</title", "amp", "not", "html"]
+SEQ_LEN = {"quick": 3, "thorough": 4}
+SEQ_STATES = [("data", None, False), ("data", None, True), ("rcdata", "title", False), ("rawtext", "style", False), ("script", "script", False),
+              ("plaintext", None, False)]
+
+
 def shard(ctx):
     install()
     k = 0
@@ -202,6 +209,17 @@ def shard(ctx):
                 for sub in ("x", "\x00", "K", "İ", " ", ">", "-", "]"):
                     if cut < len(L):
                         judge(ctx, L[:cut] + sub + L[cut + 1:], st, None if cd else last, cd, "lookahead")
+    # bounded-exhaustive: EVERY string of up to SEQ_LEN symbols over SEQ_SYMBOLS, in every start-state configuration
+    total, it = gen.all_sequences(SEQ_SYMBOLS, SEQ_LEN[ctx.tier], ctx.i, ctx.n)
+    t_seq = time.time() + ctx.time_left() * 0.6
+    cut = False
+    for qi, text in enumerate(it):
+        for st, last, cd in SEQ_STATES:
+            judge(ctx, text, st, last, cd, "sequence")
+        if qi % 256 == 0 and time.time() > t_seq:
+            cut = True
+            break
+    ctx.count("sequence_shards_cut_short" if cut else "sequence_shards_completed")
     # soup x start states x last start tags x CDATA flag
     n, idx = 0, ctx.i
     limit = (60000 if ctx.tier == "quick" else 3000000) // ctx.n
@@ -236,4 +254,9 @@ def finalize(m, v):
         m["inconclusive"].append("tokenizer state methods never entered: %s" % ", ".join(missing))
     if m["counters"].get("runs:walk1", 0) < len(PREFIXES) * len(ALPHABET) * len(SUFFIXES):
         m["inconclusive"].append("transition walk incomplete")
-    return {"h5_state_methods": len(allst), "h5_state_methods_entered": len(seen), "prefixes": len(PREFIXES), "alphabet": len(ALPHABET)}
+    if m["counters"].get("sequence_shards_cut_short", 0):
+        m["inconclusive"].append("the bounded-exhaustive symbol-sequence family was cut short by the time budget")
+    return {"bounded_exhaustive_family": {"what": "every string of 1..L symbols over SEQ_SYMBOLS x 6 start-state configurations",
+                                          "symbols": len(SEQ_SYMBOLS), "runs": m["counters"].get("runs:sequence", 0),
+                                          "complete": not m["counters"].get("sequence_shards_cut_short", 0)},
+            "h5_state_methods": len(allst), "h5_state_methods_entered": len(seen), "prefixes": len(PREFIXES), "alphabet": len(ALPHABET)}
